@@ -30,6 +30,9 @@ def gen(tier, seed):
     add("defaults", "c17-defaults", "defaults_consistent('g321', 3, s, k)", ["pre: 0 <= s <= 2 and 0 <= k <= 10"],
         "arguments left at their defaults: get_trajectory(species) is the trajectory at position 0 without merging, get_sample_index(t) uses the 'closest' policy", "s: int, k: int",
         viol="a default argument of a trajectory accessor does not mean what the documentation says")
+    add("relist", "c17-species-relist", "species_after_relist(order, extra, s, n, i)", ["pre: 0 <= order <= 5 and 0 <= extra <= 1 and 0 <= s <= 3 and 0 <= n <= 2 and 0 <= i <= 1"],
+        "species given by label or object resolve to their CURRENT position after the network's species list was reassigned (all 6 orders, with / without a new species in front) following earlier look-ups: by label == by object == by index == the data entry",
+        "order: int, extra: int, s: int, n: int, i: int", viol="after the network's species list was reassigned, a label / object still resolves to the species' OLD position: the accessor returns another species' block")
     for unit, factor in (("s", 1.0), ("ms", 1e-3), ("min", 60.0), ("h", 3600.0)):
         for policy in ("closest", "infeq", "supeq"):
             add("lookup_%s_%s" % (unit, policy), "c17-lookup:%s" % policy, "lookup_ok((t0, t1, t2), t, %r, %r, %r)" % (unit, factor, policy),
